@@ -287,6 +287,32 @@ func reversible(f *ach.File) bool {
 	return true
 }
 
+// hashHeavy concatenates the batches of generated PPD files until they hold 1500 entries.  The
+// parts are small enough for their own file hash to stay below 10^10, so the generator (which
+// validates what it returns) does not depend on the truncation under test.
+func hashHeavy(seed uint64) (f *ach.File) {
+	defer func() {
+		if recover() != nil {
+			f = nil
+		}
+	}()
+	var nf *ach.File
+	total := 0
+	for j := 0; j < 200 && total < 1500; j++ {
+		r := rng.New(seed*977 + uint64(j)*131 + 5)
+		p := gen.FileOfSEC(r, ach.PPD, gen.Opts{ForwardOnly: true, MinBatches: 1, MaxBatches: 2, MaxEntries: 60})
+		if nf == nil {
+			nf = newFileLike(p)
+		}
+		for _, b := range p.Batches {
+			b.GetHeader().BatchNumber = 0
+			nf.AddBatch(b)
+			total += len(b.GetEntries())
+		}
+	}
+	return nf
+}
+
 // ---------------------------------------------------------------- driver
 
 type emitter struct {
@@ -429,6 +455,26 @@ func corr(args []string) {
 					}
 				}
 			}
+		}
+	}
+	if want["create"] {
+		// File.Create truncates the file's entry hash to ten digits: a file whose batch hashes add up
+		// to more than 10^10 (some 1500 entries) exercises that path of tab_fctl / file_control
+		if g := hashHeavy(seed); g != nil {
+			if h, err := recreate(g); err != nil {
+				m.stats["create:error"]++
+			} else {
+				sum := 0
+				for _, b := range h.Batches {
+					sum += b.GetControl().EntryHash
+				}
+				if sum >= 10000000000 {
+					m.stats["create:file-hash-truncated"]++
+				}
+				m.file("create hash-heavy file -1", h, true)
+			}
+		} else {
+			m.stats["generator-failed"]++
 		}
 	}
 	m.cases.Close()
